@@ -27,7 +27,7 @@ ASSUMPTIONS = [
     "a string ending in a NUL character is explored as a column value but not as the comparison scalar of filter(col=value): NumPy's scalar conversion trims it before any comparison",
 ]
 BOUND = {
-    "quick": "size ladder: periodic frames of 17, 129, 1025 rows for f8/str/i8/D keys and 65537 rows for int keys (thorough: 65537 for all four) x unique/drop_na/head/tail/slice/filter; rows 0..3; single-key alphabets 'quick' (<= 6 values) for f8,i8,u1,b1,str,U,D,us,obj; two-key frames over {NA,lo,hi}^2 with rows 0..3; all masks/indices/subsets/n/RNG answers; particular values (marker-like text, dates outside the nanosecond range, the ends of int64, +inf), filter values of another type than the column, array forms and provenances of the single-key frames (strided, list-built, NumPy StringDType, other byte order, product of rbind; thorough: read-only, reversed, products of slice / deepcopy / Arrow)",
+    "quick": "size ladder: periodic frames of 17, 129, 1025 rows for f8/str/i8/D keys and 65537 rows for int keys (thorough: 65537 for all four) x unique/drop_na/head/tail/slice/filter; rows 0..3; single-key alphabets 'quick' (<= 6 values) for f8,i8,u1,b1,str,U,D,us,obj; two-key frames over {NA,lo,hi}^2 with rows 0..3; all masks/indices/subsets/n/RNG answers; particular values (marker-like text, dates outside the nanosecond range, the ends of int64, +inf, long double keys either side of 2**53), filter values of another type than the column, array forms and provenances of the single-key frames (strided, list-built, NumPy StringDType, other byte order, product of rbind; thorough: read-only, reversed, products of slice / deepcopy / Arrow)",
     "thorough": "rows 0..4; single-key alphabets 'thorough' (<= 10 values); two-key frames rows 0..4; all masks/indices/subsets/n/RNG answers; plus the additions listed for the quick tier",
 }
 TIME_CAP = {"quick": 240, "thorough": 3000}
@@ -60,6 +60,9 @@ def shards(tier):
     out.append({"part": "single", "kind": "i8", "tier": tier, "n": 3, "first": None, "alpha": [0, -9223372036854775808, 9223372036854775807, -1]})
     # object keys of mixed type that are equal in Python: 1 == 1.0 == True is ONE key; 2 is another
     out.append({"part": "single", "kind": "obj", "tier": tier, "n": 3, "first": None, "alpha": [None, 1, 1.0, True, 2]})
+    # extended-precision keys that differ beyond what float64 holds (2**53 and 2**53 + 1): distinct keys (seeded C02-r12-1)
+    if np.finfo(np.longdouble).nmant > 52:
+        out.append({"part": "single", "kind": "f16", "tier": tier, "n": 3, "first": None, "alpha": [None, "1", "9007199254740992", "9007199254740993"]})
     # frames WITHOUT any non-numeric column (matrix-style shortcuts apply only to those), holding integers float64 cannot represent
     for kind in ("f8", "i8"):
         out.append({"part": "single", "kind": kind, "tier": tier, "n": 3, "first": None, "numeric": True, "alpha": V.alphabet(kind, "key")})
@@ -99,6 +102,8 @@ def numeric_payload(n):
 def decode_value(kind, t):
     if kind in ("f8", "f4"):
         return float(t)
+    if kind == "f16":
+        return np.longdouble(t)
     if kind in ("D", "s", "ms", "us", "ns"):
         return np.datetime64(t)
     return t
